@@ -140,10 +140,12 @@ def isProduct : Op → Bool
   | .peq | .ple | .plt | .pge | .pgt => true
   | _ => false
 
+/-- A loop-bound constraint of a spatial dimension.  Per-loop operators constrain every spatial loop of the dimension over a
+rank variable of the constraint; `product…` operators constrain the product of the iteration counts of ALL those loops
+together (as `_make_tile_shapes` does: `targets = [Mul(*targets)]`); with no such loop the constraint is vacuous. -/
 def loopBoundOK (lb : LoopBound) (e : EinsumSpec) (p : Path) : Bool :=
   let cs := (spatialCounts lb.comp lb.dim e.ranks p.nodes).filter (fun (r, _) => lb.rvs.contains r)
-  if isProduct lb.op then
-    lb.rvs.all (fun rv => let mine := (cs.filter (·.1 == rv)).map (·.2); mine.isEmpty || cmp lb.op (prod mine) lb.value)
+  if isProduct lb.op then cs.isEmpty || cmp lb.op (prod (cs.map (·.2))) lb.value
   else cs.all (fun (_, n) => cmp lb.op n lb.value)
 
 /-! ### fused loops -/
